@@ -666,4 +666,55 @@ theorem elemTail_elems : (es : JElems) → es ≠ .nil → Elems (elemTail es).t
     simpa [elemTail] using this
 end
 
+/-! ### WriteInt / WriteUint literals -/
+
+theorem digit_of_mod : ∀ k, k < 10 → isDigit (BitVec.ofNat 8 (0x30 + k)) = true ∧
+    (k ≠ 0 → isDigit19 (BitVec.ofNat 8 (0x30 + k)) = true) := by decide
+
+theorem decimalAux_spec : ∀ (fuel n : Nat) (acc : Bytes), n < fuel →
+    ∃ ds, decimalAux fuel n acc = ds ++ acc ∧ AllDigits ds ∧ (n = 0 → ds = [0x30#8]) ∧
+      (n ≠ 0 → ∃ c t, ds = c :: t ∧ isDigit19 c = true) := by
+  intro fuel
+  induction fuel with
+  | zero => intro n acc h; omega
+  | succ fuel ih =>
+    intro n acc h
+    have hd := digit_of_mod (n % 10) (Nat.mod_lt _ (by decide))
+    simp only [decimalAux]
+    by_cases hq : n / 10 = 0
+    · rw [if_pos hq]
+      refine ⟨[BitVec.ofNat 8 (0x30 + n % 10)], rfl, ?_, ?_, ?_⟩
+      · intro d hd'; simp at hd'; subst hd'; exact hd.1
+      · intro h0; subst h0; rfl
+      · intro h0; exact ⟨_, [], rfl, hd.2 (by omega)⟩
+    · rw [if_neg hq]
+      obtain ⟨ds, h1, h2, _, h4⟩ := ih (n / 10) (BitVec.ofNat 8 (0x30 + n % 10) :: acc) (by omega)
+      obtain ⟨c, t, hct, hc⟩ := h4 hq
+      refine ⟨ds ++ [BitVec.ofNat 8 (0x30 + n % 10)], by rw [h1]; simp, ?_, ?_, ?_⟩
+      · exact AllDigits.append.2 ⟨h2, by intro d hd'; simp at hd'; subst hd'; exact hd.1⟩
+      · intro h0; subst h0; simp at hq
+      · intro _; exact ⟨c, t ++ [BitVec.ofNat 8 (0x30 + n % 10)], by rw [hct]; simp, hc⟩
+
+/-- the literal `WriteUint(n)` appends is an RFC 8259 number -/
+theorem decimal_intPart (n : Nat) : IntPart (decimal n) := by
+  obtain ⟨ds, h1, h2, h3, h4⟩ := decimalAux_spec (n + 1) n [] (by omega)
+  unfold decimal
+  rw [h1, List.append_nil]
+  by_cases h0 : n = 0
+  · rw [h3 h0]; exact IntPart.zero
+  · obtain ⟨c, t, rfl, hc⟩ := h4 h0
+    exact IntPart.nonzero c t hc (AllDigits.cons.1 h2).2
+
+theorem decimal_number (n : Nat) : Number (decimal n) := by
+  have := Number.mk [] (decimal n) [] [] MinusOpt.none (decimal_intPart n) FracOpt.none ExpOpt.none
+  simpa using this
+
+/-- the literal `WriteInt(n)` appends is an RFC 8259 number -/
+theorem intLiteral_number (n : Int) :
+    Number (if n < 0 then 0x2d#8 :: decimal n.natAbs else decimal n.natAbs) := by
+  split
+  · have := Number.mk [0x2d#8] (decimal n.natAbs) [] [] MinusOpt.minus (decimal_intPart _) FracOpt.none ExpOpt.none
+    simpa using this
+  · exact decimal_number _
+
 end JsonLex
